@@ -32,6 +32,13 @@ CLAIMED["C07"] = {
   "technique": "machine-checked proof in Lean 4 (real-algebra identities via linear_combination certificates; loop invariant induction) + model/implementation correspondence check",
 }
 
+CLAIMED["C11"] = {
+  "text": "Lean 4 theorems (Geodesy/Props/C11.lean): over the unit tables regenerated from units.rs on every run — all 24 names distinct, every name resolves to its own row, every row equals the published factor (unit_names_distinct, unit_lookup_own_row, unit_factors_published, by decide); unitconvert multiplies by factor(in)*(1/factor(out)) (unitconvert_spec); for adapt in the real reading — positionOf inverts every permutation of the four axes (positionOf_spec, exhaustive by decide), adapt from=A to=B is 'A to internal then internal to B' for all descriptor pairs (adapt_spec), and its inverse is the exact reverse mapping for every permutation and non-zero multipliers (adapt_inv_is_inverse, all 24 orders). Tied to /repo by a correspondence run (all 1920 descriptors as from / to / inv from, sampled or exhaustive pairs, all 4096 words for acceptance, all index lists for axisswap, all unit pairs; constructor dump and values <= 4 ulp) and independent oracles on the implementation.",
+  "design_ref": "DESIGN.md section 7, C11",
+  "note": "Partial: axisswap (accept/reject rule, gather semantics, inverse) and the descriptor acceptance rule are decided exhaustively by correspondence + oracle over the finite domains named in the property, not by theorems.",
+  "technique": "machine-checked proof in Lean 4 (decide over generated tables; permutation lemmas; real algebra) + exhaustive model/implementation correspondence over the finite domains",
+}
+
 ALL = ["C%02d" % i for i in range(1, 21)]
 
 def main():
